@@ -84,3 +84,24 @@ def run(ctx):
         ctx.count("dup:" + what)
         if rc != 1 or "error" not in err:
             ctx.violation("switch:%s-accepted" % what, "duplicate label not diagnosed: rc=%s" % rc, {"source": src})
+
+
+def replay(ctx, path):
+    """tree:shape cases: feed the recorded key history to the real tree.c again and compare with the shape Tree.tla gave."""
+    rec = json.load(open(path))
+    case = rec.get("case", {})
+    if "history" not in case:
+        print("replay: only tree:shape cases can be replayed on their own (key %s); switch cases are re-run by the quick tier" % rec.get("key"))
+        return 2
+    exe = vlib.cc_link([os.path.join(vlib.VERIF, "harness/ctree.c"), os.path.join(vlib.REPO, "tree.c")], ctx.path("ctree"),
+                       extra=["-fsanitize=address,undefined", "-fno-sanitize-recover=undefined"])
+    p = subprocess.run([exe], input=case["history"] + "\n", stdout=subprocess.PIPE, stderr=subprocess.PIPE, text=True,
+                       env=dict(os.environ, ASAN_OPTIONS="detect_leaks=0"), timeout=60)
+    got = p.stdout.strip()
+    exp = case["expected"]
+    print("history:  " + case["history"])
+    print("expected: " + exp)
+    print("observed: " + (got or "rc=%s %s" % (p.returncode, p.stderr[-300:])))
+    ok = (got.split(" ", 1)[1:] == exp.split(" ", 1)[1:]) if exp.startswith("?") else got == exp
+    print("verdict:  " + ("agrees with Tree.tla" if ok else "differs from Tree.tla"))
+    return 0 if ok else 1
